@@ -15,7 +15,9 @@
  *   Q<hex4> service request (control callback SCPI_CTRL_SRQ with this value), after W / F of the call
  *   W<hex> bytes written during the call   F<n> flushes   R<0|1> return value of the call
  *   at the end: D<code>:<hextext|N>,... queue drained with SCPI_ErrorPop   M<hex> unconsumed remainder
- *               S<regs> registers */
+ *               S<regs> registers
+ *   pseudo-chunks: =G<reg>:<hex> the firmware writes a register (token g<reg>:<hex4>), =S snapshot (token s<regs>,<error count>),
+ *               =L<hex> a NUL-terminated line handed straight to SCPI_Parse (token T<1|0>: the NUL is still there) */
 #include "h_env.h"
 #include <math.h>
 
@@ -26,6 +28,7 @@ typedef struct { char pattern[96]; int tag; op_t ops[MAXOPS]; int nops; } hcmd_t
 typedef struct { hcmd_t cmds[MAXCMDS]; int n; scpi_command_t table[MAXCMDS + 1]; } table_t;
 
 static table_t *cur_table;
+static const char *cur_line;             /* the line handed straight to SCPI_Parse (pseudo-chunk =L), NULL inside SCPI_Input */
 static FILE *EV;                       /* event sink (memory stream) */
 static char *ev_buf; static size_t ev_len;
 
@@ -77,7 +80,7 @@ static scpi_result_t generic_handler(scpi_t *ctx) {
         } else if (!strcmp(o->name, "pH") || !strcmp(o->name, "pK")) {
             const char *p = NULL; size_t n = 0; isreader = 1;
             ok = o->name[1] == 'H' ? SCPI_ParamCharacters(ctx, &p, &n, (int) o->a[0]) : SCPI_ParamArbitraryBlock(ctx, &p, &n, (int) o->a[0]);
-            fprintf(EV, " Y%d:", ok); if (ok) { fprintf(EV, "%ld:", (long)(p - ctx->buffer.data)); ev_hex(p, n); } else fprintf(EV, "-");
+            fprintf(EV, " Y%d:", ok); if (ok) { fprintf(EV, "%ld:", (long)(p - (cur_line ? cur_line : ctx->buffer.data))); ev_hex(p, n); } else fprintf(EV, "-");
         } else if (!strcmp(o->name, "pT")) {
             size_t cap = (size_t) o->a[1], n = 777; char *b = (char *) malloc(cap ? cap : 1); isreader = 1;
             memset(b, 0xAA, cap ? cap : 1);
@@ -194,8 +197,34 @@ static void feed(h_env_t *e, const char *chunk) {
         if (sscanf(chunk + 2, "%u:%x", &reg, &val) == 2 && reg < SCPI_REG_COUNT) {
             h_env_clear_capture(e);
             SCPI_RegSet(&e->ctx, (scpi_reg_name_t) reg, (scpi_reg_val_t) val);
+            fprintf(EV, " g%u:%04x", reg, val & 0xffffu);
             for (i = 0; i < e->n_srq; i++) fprintf(EV, " Q%04x", e->srq[i]);
         }
+        return;
+    }
+    if (chunk[0] == '=' && chunk[1] == 'S') {
+        /* snapshot of the status registers and the error count between messages (judged: C11 summary bits, C12 latching) */
+        int i;
+        fprintf(EV, " s");
+        for (i = 0; i < SCPI_REG_COUNT; i++) fprintf(EV, "%s%04x", i ? "." : "", (unsigned) SCPI_RegGet(&e->ctx, (scpi_reg_name_t) i));
+        fprintf(EV, ",%d", (int) SCPI_ErrorCount(&e->ctx));
+        return;
+    }
+    if (chunk[0] == '=' && chunk[1] == 'L') {
+        /* a complete NUL-terminated line handed straight to the line parser: SCPI_Parse(context, line, strlen(line)).
+         * The line lives in an exact-size object of its own (len + 1 bytes); the parser composes compound headers in place */
+        n = h_unhex(chunk + 2, data, sizeof data - 1);
+        exact = (char *) malloc(n + 1); memcpy(exact, data, n); exact[n] = 0;
+        h_env_clear_capture(e);
+        cur_line = exact;
+        r = SCPI_Parse(&e->ctx, exact, (int) n);
+        cur_line = NULL;
+        fprintf(EV, " T%d", exact[n] == 0 ? 1 : 0);      /* the terminating NUL is still there */
+        free(exact);
+        if (e->out_len) { fprintf(EV, " W"); ev_hex(e->out, e->out_len); }
+        if (e->flushes) fprintf(EV, " F%d", e->flushes);
+        { int i; for (i = 0; i < e->n_srq; i++) fprintf(EV, " Q%04x", e->srq[i]); }
+        fprintf(EV, " R%d", r ? 1 : 0);
         return;
     }
     n = h_unhex(chunk, data, sizeof data);
